@@ -36,14 +36,17 @@ import TrackpyV.Proofs.RelocOracle
 * `shortcut_one_zero`, `shortcut_one_one`   the shortcut cases of the sub-net linker
                              (subnetlinker.py:375-383) agree with the general solver.
 
--- FULL (not proved): acceptance in optimality mode (`cfg.noOpt = false`): `flStep` then also
---   demands that the links are a minimum-cost assignment on every connected component of the
---   candidate graph of the EMITTED level.  The model solves each MERGED sub-net (a union of
---   components plus the features added for it) to optimality; that this is optimal on every
---   component needs (a) a feature added for one sub-net is out of range of the sources of every
---   other sub-net (triangle inequality for `dist2 cfg.w` + the `2·search_range` merge rule) and
---   (b) optimal on a disjoint union ⇒ optimal on each part (`Assign.groups_compose_list`
---   backwards).  Not needed by C14 (FLRUN runs with `opt=False`).
+-- FULL (FALSE as stated, settled in `Props/C14Opt.lean`): acceptance in optimality mode
+--   (`cfg.noOpt = false`): `flStep` then also demands that the links are a minimum-cost assignment
+--   on every connected component of the candidate graph of the EMITTED level.  The model solves
+--   each MERGED sub-net to optimality; but (a) "a feature added for one sub-net is out of range of
+--   the sources of every other sub-net" holds for features seen by a LOST source only (the
+--   `2·search_range` merge rule looks around lost sources, `add_dest_points` admits through any
+--   member): `C14Opt.flAlgo_opt_witness` is a step on which `flStep` rejects the model's own
+--   output, replayed on the real find_link (design-notes/c14_opt_witness.py).  Proved there:
+--   `flAlgo_accepted_opt_partial` (acceptance under the run-time side condition `addedLocalB`),
+--   (a) for lost sources (`flAlgo_added_local_of_lost`), (b) `optimal_on_parts`.  Not needed by
+--   C14 (the property does not claim optimal links; FLRUN judges with `opt=False`).
 -/
 namespace TrackpyV.FindLink
 open TrackpyV.Linker TrackpyV.Assign
